@@ -165,6 +165,21 @@ def replay(scn, ui, python, cse=True, presentation=None, force_ekf=False):
     reused_state = None      # ONE State object overwritten in place from evaluation to evaluation
     stored = {}      # sensor key -> (innovation, S) as stored at its last update
     ghost = None
+    other = None
+    if want_ekf and zlib.crc32(str(scn.get("_id", "")).encode()) % 2 == 0:
+        # a second filter object in the same process, built AFTER the first from a DIFFERENT definition with the same symbol, sensor
+        # and reading names (every expression e becomes 2 e + 1): nothing a later filter compiles may reach an earlier one
+        try:
+            import copy as _copy
+
+            def _twice_plus_one(t):
+                return {"op": "add", "l": {"op": "mul", "l": {"op": "const", "val": [2, 1]}, "r": t}, "r": {"op": "const", "val": [1, 1]}}
+            j2 = _copy.deepcopy(scn["def"])
+            j2["update"] = {n: _twice_plus_one(t) for n, t in named(j2["update"]).items()}
+            j2["sensors"] = {k: {r: _twice_plus_one(t) for r, t in named(m).items()} for k, m in named(j2["sensors"]).items()}
+            other = build_py(Definition(j2), ui, python, cse, True, presentation)[0]
+        except Exception:
+            other = None         # (the modified definition need not compile; only its side effects on the first filter matter)
     if want_ekf and any(st["act"] == "Update" for st in scn["steps"]) and zlib.crc32(str(scn.get("_id", "")).encode()) % 3 == 0:
         ghost = build_py(d, ui, python, cse, True, presentation)[0]      # a second filter object built from the same definition
     # (only in behaviours without prediction steps: a model like u' = z0/dt, z0' = u amplifies the 2^-40 by 8 per step)
@@ -276,7 +291,7 @@ def replay(scn, ui, python, cse=True, presentation=None, force_ekf=False):
                 if asym and len(names) >= 2:
                     # a covariance that is symmetric only up to rounding (2^-40 relative on one off-diagonal entry): accepted by the
                     # library, expectations move by < 1e-12; makes "a discard leaves the covariance EXACTLY as it was" observable
-                    data[0, 1] += (abs(data[0, 1]) + 1.0) * 2.0 ** -40
+                    data[0, 1] += (abs(data[0, 1]) + float(np.max(np.abs(data)))) * 2.0 ** -40       # (relative to the covariance's magnitude)
                 cov = impl.Covariance.from_data(data)
                 est = (state, cov)
                 res.trace.append({"x": proj_vec(state), "P": proj_cov(cov)})
